@@ -60,6 +60,9 @@ Proof.
     split; [reflexivity|]. split; [reflexivity|].
     split; [destruct (r_place r); reflexivity|].
     split; [exact H3|]. split; [exact H1 | exact H2].
+  - destruct (circuit _ _) as [U|] eqn:Ec; [|discriminate].
+    destruct (gate_spec _ _) as [G0|] eqn:Es; [|discriminate].
+    exists U, G0. repeat split; auto. apply phase_eqb_sound; exact H.
 Qed.
 
 Lemma rows_ok_sound : forall rows, forallb row_ok rows = true ->
